@@ -31,6 +31,45 @@ Proof. intros k x ctx c code v c' sc l H. discriminate. Qed.
 Lemma used_plain (l : alut) t (ss : list stmt) : snd (if 0 <? count_of u t then (ss, l) else ([], l)) = l.
 Proof. destruct (0 <? count_of u t); reflexivity. Qed.
 
+(* the code after the first operand of and / or *)
+Lemma and_tail_shape l1 t fl va code_b vb cb0 cb1 c c' :
+  (forall l0, exists b2 l2, cshape u l0 code_b b2 l2 cb0 cb1 /\ cb0 <= vb /\ vb < cb1) ->
+  c <= cb0 -> cb1 <= c' -> c <= t < c' -> c <= fl < c' ->
+  exists bl l', cshape u l1 ([IDefine t; IBool fl false; IAssign t fl; IIf va] ++ code_b ++ [IAssign t vb; IEnd]) bl l' c c'.
+Proof.
+  intros Hb2 Hc0 Hc1 Ht Hfl.
+  set (l1' := snd (aiis u l1 fl EFalse)).
+  destruct (Hb2 l1') as (b2 & l2 & Hs2 & ? & ?).
+  eexists _, _. cbn [app].
+  eapply cshape_cons'; [apply (cshape_plain u l1 (IDefine t) c c'); [lia | reflexivity | reflexivity | apply used_plain]|].
+  eapply cshape_cons'; [eapply (cshape_iis u l1 (IBool fl false) fl EFalse c c'); [lia | reflexivity | reflexivity]|].
+  eapply cshape_cons'; [apply (cshape_plain u l1' (IAssign t fl) c c'); [lia | reflexivity | reflexivity | apply used_plain]|].
+  replace (code_b ++ [IAssign t vb; IEnd]) with ((code_b ++ [IAssign t vb]) ++ [IEnd]) by (rewrite <- app_assoc; reflexivity).
+  apply cshape_if.
+  eapply cshape_app'; [eapply cshape_widen; [exact Hs2 | lia | lia]|].
+  apply (cshape_plain u l2 (IAssign t vb) c c'); [lia | reflexivity | reflexivity | apply used_plain].
+Qed.
+
+Lemma or_tail_shape l1 t fl na va code_b vb cb0 cb1 c c' :
+  (forall l0, exists b2 l2, cshape u l0 code_b b2 l2 cb0 cb1 /\ cb0 <= vb /\ vb < cb1) ->
+  c <= cb0 -> cb1 <= c' -> c <= t < c' -> c <= fl < c' -> c <= na < c' ->
+  exists bl l', cshape u l1 ([IDefine t; IBool fl true; IAssign t fl; INot na va; IIf na] ++ code_b ++ [IAssign t vb; IEnd]) bl l' c c'.
+Proof.
+  intros Hb2 Hc0 Hc1 Ht Hfl Hna.
+  set (l1' := snd (aiis u l1 fl ETrue)).
+  set (l1'' := snd (aiis u l1' na (EParen (EUn UNot (aexpand l1' va))))).
+  destruct (Hb2 l1'') as (b2 & l2 & Hs2 & ? & ?).
+  eexists _, _. cbn [app].
+  eapply cshape_cons'; [apply (cshape_plain u l1 (IDefine t) c c'); [lia | reflexivity | reflexivity | apply used_plain]|].
+  eapply cshape_cons'; [eapply (cshape_iis u l1 (IBool fl true) fl ETrue c c'); [lia | reflexivity | reflexivity]|].
+  eapply cshape_cons'; [apply (cshape_plain u l1' (IAssign t fl) c c'); [lia | reflexivity | reflexivity | apply used_plain]|].
+  eapply cshape_cons'; [eapply (cshape_iis u l1' (INot na va) na _ c c'); [lia | reflexivity | reflexivity]|].
+  replace (code_b ++ [IAssign t vb; IEnd]) with ((code_b ++ [IAssign t vb]) ++ [IEnd]) by (rewrite <- app_assoc; reflexivity).
+  apply cshape_if.
+  eapply cshape_app'; [eapply cshape_widen; [exact Hs2 | lia | lia]|].
+  apply (cshape_plain u l2 (IAssign t vb) c c'); [lia | reflexivity | reflexivity | apply used_plain].
+Qed.
+
 Lemma L_expr_succ g : L_expr pv u g -> L_expr pv u (S g).
 Proof.
   intros IH k x ctx c code v c' sc l Hlow Hfrag.
@@ -39,7 +78,7 @@ Proof.
   - (* ERead *)
     cbn [expression] in Hlow. mon Hlow. fresh_all. injection H as <- <-.
     eexists _, _. split; [|lia].
-    apply cshape_plain; [lia | reflexivity | apply used_plain].
+    apply cshape_plain; [lia | reflexivity | reflexivity | apply used_plain].
   - (* ECall print *)
     destruct x; try discriminate Hfrag. destruct args as [|a [|? ?]]; try discriminate Hfrag.
     frag_split Hfrag. apply N.eqb_eq in Hfrag. subst var.
@@ -52,9 +91,9 @@ Proof.
     destruct (IH k a ctx (c + 1) code_a va ca sc l Ha Hfr) as (b_a & l1 & Hsa & Hva1 & Hva2).
     pose proof Hsa as (_ & Hca & _).
     eexists _, _. split.
-    + eapply cshape_cons; [apply (cshape_plain u l (ICopy c pv) c (c + 1)); [lia | reflexivity | apply used_plain] |].
+    + eapply cshape_cons; [apply (cshape_plain u l (ICopy c pv) c (c + 1)); [lia | reflexivity | reflexivity | apply used_plain] |].
       eapply cshape_app; [exact Hsa|].
-      apply (cshape_plain u l1 _ ca (ca + 1)); [lia | reflexivity | reflexivity].
+      apply (cshape_plain u l1 _ ca (ca + 1)); [lia | reflexivity | reflexivity | reflexivity].
     + lia.
   - (* EBinOp *)
     frag_split Hfrag.
@@ -78,20 +117,20 @@ Proof.
       eexists _, _. split; [|lia].
       eapply cshape_app; [exact Hs1|]. eapply cshape_app; [exact Hs2|].
       eapply cshape_cons; [eapply (cshape_iis u l2 _ c1 _ c1 (c1 + 1)); [lia | reflexivity | reflexivity]|].
-      apply (cshape_plain u _ (IAssert c1) (c1 + 1) (c1 + 1)); [lia | reflexivity | reflexivity].
+      apply (cshape_plain u _ (IAssert c1) (c1 + 1) (c1 + 1)); [lia | reflexivity | reflexivity | reflexivity].
     + (* and *)
       inj_code.
       set (l1' := snd (aiis u l1 (c1 + 1) EFalse)).
       destruct (Hb2 l1') as (b2 & l2 & Hs2 & ? & ?); pose proof Hs2 as (_ & ? & _).
       eexists _, _. split; [|lia].
       eapply cshape_app'; [eapply cshape_widen; [exact Hs1 | lia | lia]|].
-      eapply cshape_cons'; [apply (cshape_plain u l1 (IDefine c1) c (c1 + 1 + 1)); [lia | reflexivity | apply used_plain]|].
+      eapply cshape_cons'; [apply (cshape_plain u l1 (IDefine c1) c (c1 + 1 + 1)); [lia | reflexivity | reflexivity | apply used_plain]|].
       eapply cshape_cons'; [eapply (cshape_iis u l1 (IBool (c1 + 1) false) (c1 + 1) EFalse c (c1 + 1 + 1)); [lia | reflexivity | reflexivity]|].
-      eapply cshape_cons'; [apply (cshape_plain u l1' (IAssign c1 (c1 + 1)) c (c1 + 1 + 1)); [lia | reflexivity | apply used_plain]|].
+      eapply cshape_cons'; [apply (cshape_plain u l1' (IAssign c1 (c1 + 1)) c (c1 + 1 + 1)); [lia | reflexivity | reflexivity | apply used_plain]|].
       replace (code_b ++ [IAssign c1 vb; IEnd]) with ((code_b ++ [IAssign c1 vb]) ++ [IEnd]) by (rewrite <- app_assoc; reflexivity).
       apply cshape_if.
       eapply cshape_app'; [eapply cshape_widen; [exact Hs2 | lia | lia]|].
-      apply (cshape_plain u l2 (IAssign c1 vb) c (c1 + 1 + 1)); [lia | reflexivity | apply used_plain].
+      apply (cshape_plain u l2 (IAssign c1 vb) c (c1 + 1 + 1)); [lia | reflexivity | reflexivity | apply used_plain].
     + (* or *)
       inj_code.
       set (l1' := snd (aiis u l1 (c1 + 1 + 1) ETrue)).
@@ -99,14 +138,14 @@ Proof.
       destruct (Hb2 l1'') as (b2 & l2 & Hs2 & ? & ?); pose proof Hs2 as (_ & ? & _).
       eexists _, _. split; [|lia].
       eapply cshape_app'; [eapply cshape_widen; [exact Hs1 | lia | lia]|].
-      eapply cshape_cons'; [apply (cshape_plain u l1 (IDefine (c1 + 1)) c (c1 + 1 + 1 + 1)); [lia | reflexivity | apply used_plain]|].
+      eapply cshape_cons'; [apply (cshape_plain u l1 (IDefine (c1 + 1)) c (c1 + 1 + 1 + 1)); [lia | reflexivity | reflexivity | apply used_plain]|].
       eapply cshape_cons'; [eapply (cshape_iis u l1 (IBool (c1 + 1 + 1) true) (c1 + 1 + 1) ETrue c (c1 + 1 + 1 + 1)); [lia | reflexivity | reflexivity]|].
-      eapply cshape_cons'; [apply (cshape_plain u l1' (IAssign (c1 + 1) (c1 + 1 + 1)) c (c1 + 1 + 1 + 1)); [lia | reflexivity | apply used_plain]|].
+      eapply cshape_cons'; [apply (cshape_plain u l1' (IAssign (c1 + 1) (c1 + 1 + 1)) c (c1 + 1 + 1 + 1)); [lia | reflexivity | reflexivity | apply used_plain]|].
       eapply cshape_cons'; [eapply (cshape_iis u l1' (INot c1 va) c1 _ c (c1 + 1 + 1 + 1)); [lia | reflexivity | reflexivity]|].
       replace (code_b ++ [IAssign (c1 + 1) vb; IEnd]) with ((code_b ++ [IAssign (c1 + 1) vb]) ++ [IEnd]) by (rewrite <- app_assoc; reflexivity).
       apply cshape_if.
       eapply cshape_app'; [eapply cshape_widen; [exact Hs2 | lia | lia]|].
-      apply (cshape_plain u l2 (IAssign (c1 + 1) vb) c (c1 + 1 + 1 + 1)); [lia | reflexivity | apply used_plain].
+      apply (cshape_plain u l2 (IAssign (c1 + 1) vb) c (c1 + 1 + 1 + 1)); [lia | reflexivity | reflexivity | apply used_plain].
   - (* EUniOp *)
     destruct op; cbn [expression] in Hlow; mon Hlow; fresh_all; inj_code.
     all: match goal with Ha : expression _ _ _ _ = Ok (?ra, _) |- _ =>
